@@ -8,7 +8,7 @@
    parameters (H, raw, ed_raw, pkcs1_raw, pss_raw ...): every theorem holds
    for every instantiation, in particular for the Go standard library. *)
 From Coq Require Import List NArith ZArith Bool.
-From Tink Require Import Bytes DER DERProofs Sig SigProofs.
+From Tink Require Import Bytes DER DERProofs Sig SigProofs SigProofs2.
 Import ListNotations.
 Open Scope N_scope.
 
@@ -303,3 +303,448 @@ Example C03_example_p1363 :
   ecdsa_verify toyH toy_raw (toy_key P1363 VLegacy) (toy_p1363_sig ++ [0]) [9] = Err /\
   ecdsa_verify toyH toy_raw (toy_key P1363 VLegacy) (tl toy_p1363_sig) [9] = Err.
 Proof. vm_compute. repeat split; reflexivity. Qed.
+
+(* ====================================================================== *)
+(* Second round: RSA fixed-length rule, explicit rejections for Ed25519 and
+   RSA, LEGACY on Sign, "modified message / other key" in reduction form.
+   Proofs: proofs/SigProofs2.v.
+
+   crypto/rsa.VerifyPKCS1v15 / VerifyPSS reject `len(sig) != pub.Size()`
+   before the RSA operation; tink-go has no length check of its own.  The
+   standard verification is therefore modelled as [std_pkcs1 core] /
+   [std_pss core] = length check, then an arbitrary [core] (model/Sig.v); the
+   theorems hold for every [core]. *)
+
+(* ---------------- (a) RSA: wrong-length signatures ---------------- *)
+
+(* the signature size is the modulus length in bytes, (BitLen + 7) / 8,
+   independent of leading zero bytes in the modulus encoding; accepted keys
+   have at least 256 bytes *)
+Theorem C03_rsa_sig_len_is_modulus_byte_length :
+  (forall n, rsa_sig_len n = N.to_nat ((N.size (be_val n) + 7) / 8)) /\
+  (forall n k, (0 < k)%nat ->
+     (rsa_sig_len n = k <-> 256 ^ N.of_nat (k - 1) <= be_val n /\ be_val n < 256 ^ N.of_nat k)) /\
+  (forall n, rsa_sig_len (0 :: n) = rsa_sig_len n) /\
+  (forall n e, rsa_key_ok n e = true -> (256 <= rsa_sig_len n)%nat).
+Proof.
+  split; [exact rsa_sig_len_bits|]. split; [exact rsa_sig_len_spec|].
+  split; [exact rsa_sig_len_lead0|exact rsa_key_ok_sig_len].
+Qed.
+Print Assumptions C03_rsa_sig_len_is_modulus_byte_length.
+
+(* exact acceptance sets with the length explicit *)
+Theorem C03_rsa_verify_iff_with_length :
+  forall H pkcs1_core pss_core k sig msg,
+    (pkcs1_verify H (std_pkcs1 pkcs1_core) k sig msg = Ok tt <->
+     exists body, sig = prefix (rk_variant k) (rk_id k) ++ body /\
+       length body = rsa_sig_len (rk_n k) /\
+       pkcs1_core (rk_n k) (rk_e k) (rk_hash k) (H (rk_hash k) (msg ++ suffix (rk_variant k))) body = true) /\
+    (pss_verify H (std_pss pss_core) k sig msg = Ok tt <->
+     exists body, sig = prefix (rk_variant k) (rk_id k) ++ body /\
+       length body = rsa_sig_len (rk_n k) /\
+       pss_core (rk_n k) (rk_e k) (rk_hash k) (rk_salt k)
+                (H (rk_hash k) (msg ++ suffix (rk_variant k))) body = true).
+Proof. exact rsa_std_verify_iff. Qed.
+Print Assumptions C03_rsa_verify_iff_with_length.
+
+(* every byte string of another total length, and every prefix || body with
+   |body| <> modulus length, is rejected: for every key, message, hash and
+   core verification *)
+Theorem C03_rsa_wrong_length_rejected :
+  forall H pkcs1_core pss_core k sig body msg,
+    (length sig <> (length (prefix (rk_variant k) (rk_id k)) + rsa_sig_len (rk_n k))%nat ->
+     pkcs1_verify H (std_pkcs1 pkcs1_core) k sig msg = Err /\
+     pss_verify H (std_pss pss_core) k sig msg = Err) /\
+    (length body <> rsa_sig_len (rk_n k) ->
+     pkcs1_verify H (std_pkcs1 pkcs1_core) k (prefix (rk_variant k) (rk_id k) ++ body) msg = Err /\
+     pss_verify H (std_pss pss_core) k (prefix (rk_variant k) (rk_id k) ++ body) msg = Err).
+Proof.
+  intros. split; [apply rsa_wrong_length_rejected|apply rsa_wrong_body_length_rejected].
+Qed.
+Print Assumptions C03_rsa_wrong_length_rejected.
+
+(* the failure mode of "left-pad short signatures": if prefix || 00 || body is
+   accepted, then prefix || body (same integer, leading zero stripped) and
+   prefix || 00 00 || body are rejected *)
+Theorem C03_rsa_zero_stripped_or_padded_rejected :
+  forall H pkcs1_core pss_core k body msg,
+    pkcs1_verify H (std_pkcs1 pkcs1_core) k (prefix (rk_variant k) (rk_id k) ++ 0 :: body) msg = Ok tt \/
+    pss_verify H (std_pss pss_core) k (prefix (rk_variant k) (rk_id k) ++ 0 :: body) msg = Ok tt ->
+    be_val (0 :: body) = be_val body /\
+    pkcs1_verify H (std_pkcs1 pkcs1_core) k (prefix (rk_variant k) (rk_id k) ++ body) msg = Err /\
+    pss_verify H (std_pss pss_core) k (prefix (rk_variant k) (rk_id k) ++ body) msg = Err /\
+    pkcs1_verify H (std_pkcs1 pkcs1_core) k (prefix (rk_variant k) (rk_id k) ++ 0 :: 0 :: body) msg = Err /\
+    pss_verify H (std_pss pss_core) k (prefix (rk_variant k) (rk_id k) ++ 0 :: 0 :: body) msg = Err.
+Proof. exact rsa_zero_stripped_or_padded_rejected. Qed.
+Print Assumptions C03_rsa_zero_stripped_or_padded_rejected.
+
+(* Sign returns prefix || body with |body| = modulus length (total length
+   5 + k, or k for RAW), for every signing oracle whose outputs the standard
+   verification accepts *)
+Theorem C03_rsa_sign_has_modulus_length :
+  forall H pkcs1_core pss_core
+         (pkcs1_sign_raw : bytes -> hasht -> bytes -> bytes)
+         (pss_sign_raw : bytes -> hasht -> N -> bytes -> bytes -> bytes)
+         (rsa_pub_of : bytes -> bytes * N) k sk rnd msg,
+    (forall sk h d, std_pkcs1 pkcs1_core (fst (rsa_pub_of sk)) (snd (rsa_pub_of sk)) h d (pkcs1_sign_raw sk h d) = true) ->
+    (forall sk h salt d rnd,
+        std_pss pss_core (fst (rsa_pub_of sk)) (snd (rsa_pub_of sk)) h salt d (pss_sign_raw sk h salt d rnd) = true) ->
+    (rk_n k, rk_e k) = rsa_pub_of sk ->
+    (exists body, pkcs1_sign H pkcs1_sign_raw k sk msg = prefix (rk_variant k) (rk_id k) ++ body /\
+                  length body = rsa_sig_len (rk_n k)) /\
+    (exists body, pss_sign H pss_sign_raw k sk rnd msg = prefix (rk_variant k) (rk_id k) ++ body /\
+                  length body = rsa_sig_len (rk_n k)) /\
+    length (pkcs1_sign H pkcs1_sign_raw k sk msg) =
+      ((match rk_variant k with VRaw => 0 | _ => 5 end) + rsa_sig_len (rk_n k))%nat /\
+    length (pss_sign H pss_sign_raw k sk rnd msg) =
+      ((match rk_variant k with VRaw => 0 | _ => 5 end) + rsa_sig_len (rk_n k))%nat.
+Proof. exact rsa_sign_length. Qed.
+Print Assumptions C03_rsa_sign_has_modulus_length.
+
+(* ---------------- (b) explicit rejections ---------------- *)
+
+(* two keys have the same output prefix iff same start byte and same key id *)
+Theorem C03_prefix_determines_start_byte_and_id :
+  forall v id v' id', id < 4294967296 -> id' < 4294967296 ->
+    (prefix v id = prefix v' id' <-> start_byte v = start_byte v' /\ (v <> VRaw -> id = id')).
+Proof. exact prefix_eq_iff. Qed.
+Print Assumptions C03_prefix_determines_start_byte_and_id.
+
+(* Ed25519, for every oracle, key, signature and message:
+   - a byte string that does not start with the key's output prefix is rejected;
+   - every total length other than |prefix| + 64 is rejected;
+   - what is accepted under one output prefix is rejected under any other
+     (other key id, TINK vs CRUNCHY/LEGACY start byte, RAW key for a prefixed
+     signature, prefixed key for a RAW signature), with any key and message;
+   - an accepted signature with bytes appended, or cut at the end or at the
+     front, is rejected. *)
+Theorem C03_ed25519_explicit_rejections :
+  forall (ed_raw : bytes -> bytes -> bytes -> bool) v id pub sig msg,
+    ((forall t, sig <> prefix v id ++ t) -> ed25519_verify ed_raw v id pub sig msg = Err) /\
+    (length sig <> (length (prefix v id) + 64)%nat -> ed25519_verify ed_raw v id pub sig msg = Err) /\
+    (ed25519_verify ed_raw v id pub sig msg = Ok tt ->
+     (forall v' id' pub' msg', prefix v id <> prefix v' id' ->
+        ed25519_verify ed_raw v' id' pub' sig msg' = Err) /\
+     (forall t, t <> [] -> ed25519_verify ed_raw v id pub (sig ++ t) msg = Err) /\
+     (forall j, (j < length sig)%nat ->
+        ed25519_verify ed_raw v id pub (firstn j sig) msg = Err /\
+        ed25519_verify ed_raw v id pub (skipn (length sig - j) sig) msg = Err)).
+Proof.
+  intros. split; [apply ed25519_no_prefix_rejected|]. split; [apply ed25519_wrong_length_rejected|].
+  intros Ho. split.
+  - intros. eapply ed25519_other_prefix_rejected; eauto.
+  - apply ed25519_trailing_truncated_rejected. exact Ho.
+Qed.
+Print Assumptions C03_ed25519_explicit_rejections.
+
+(* RSA-SSA-PKCS1 / PSS.  The prefix rule holds for every standard
+   verification; the other-prefix / trailing / truncated rules use the
+   length rule of crypto/rsa. *)
+Theorem C03_rsa_explicit_rejections :
+  forall H pkcs1_raw pss_raw pkcs1_core pss_core k sig msg,
+    ((forall t, sig <> prefix (rk_variant k) (rk_id k) ++ t) ->
+     pkcs1_verify H pkcs1_raw k sig msg = Err /\ pss_verify H pss_raw k sig msg = Err) /\
+    (forall k' msg', rsa_sig_len (rk_n k') = rsa_sig_len (rk_n k) ->
+       prefix (rk_variant k) (rk_id k) <> prefix (rk_variant k') (rk_id k') ->
+       (pkcs1_verify H (std_pkcs1 pkcs1_core) k sig msg = Ok tt ->
+        pkcs1_verify H (std_pkcs1 pkcs1_core) k' sig msg' = Err) /\
+       (pss_verify H (std_pss pss_core) k sig msg = Ok tt ->
+        pss_verify H (std_pss pss_core) k' sig msg' = Err)) /\
+    (pkcs1_verify H (std_pkcs1 pkcs1_core) k sig msg = Ok tt ->
+     (forall t, t <> [] -> pkcs1_verify H (std_pkcs1 pkcs1_core) k (sig ++ t) msg = Err) /\
+     (forall j, (j < length sig)%nat ->
+        pkcs1_verify H (std_pkcs1 pkcs1_core) k (firstn j sig) msg = Err /\
+        pkcs1_verify H (std_pkcs1 pkcs1_core) k (skipn (length sig - j) sig) msg = Err)) /\
+    (pss_verify H (std_pss pss_core) k sig msg = Ok tt ->
+     (forall t, t <> [] -> pss_verify H (std_pss pss_core) k (sig ++ t) msg = Err) /\
+     (forall j, (j < length sig)%nat ->
+        pss_verify H (std_pss pss_core) k (firstn j sig) msg = Err /\
+        pss_verify H (std_pss pss_core) k (skipn (length sig - j) sig) msg = Err)).
+Proof.
+  intros. split; [apply rsa_no_prefix_rejected|].
+  split; [intros; apply rsa_other_prefix_rejected; assumption|].
+  apply rsa_trailing_truncated_rejected.
+Qed.
+Print Assumptions C03_rsa_explicit_rejections.
+
+(* LEGACY on Sign: the signer signs msg || 00 and frames it with the CRUNCHY
+   prefix 00 || id (companion of C03_legacy_is_crunchy_over_suffixed_message) *)
+Theorem C03_legacy_sign_is_crunchy_over_suffixed_message :
+  forall H (sign_rs : curve -> bytes -> bytes -> bytes -> N * N) (ed_sign : bytes -> bytes -> bytes)
+         (pkcs1_sign_raw : bytes -> hasht -> bytes -> bytes)
+         (pss_sign_raw : bytes -> hasht -> N -> bytes -> bytes -> bytes)
+         k rk id sk seed rnd msg,
+    ecdsa_sign H sign_rs (with_variant k VLegacy id) sk rnd msg =
+      ecdsa_sign H sign_rs (with_variant k VCrunchy id) sk rnd (msg ++ [0]) /\
+    ed25519_sign ed_sign VLegacy id seed msg = ed25519_sign ed_sign VCrunchy id seed (msg ++ [0]) /\
+    (forall sig, ed25519_sign ed_sign VLegacy id seed msg = Ok sig ->
+       sig = 0 :: be_bytes 4 id ++ ed_sign seed (msg ++ [0])) /\
+    pkcs1_sign H pkcs1_sign_raw (rsa_with_variant rk VLegacy) sk msg =
+      pkcs1_sign H pkcs1_sign_raw (rsa_with_variant rk VCrunchy) sk (msg ++ [0]) /\
+    pss_sign H pss_sign_raw (rsa_with_variant rk VLegacy) sk rnd msg =
+      pss_sign H pss_sign_raw (rsa_with_variant rk VCrunchy) sk rnd (msg ++ [0]) /\
+    pkcs1_sign H pkcs1_sign_raw (rsa_with_variant rk VLegacy) sk msg =
+      0 :: be_bytes 4 (rk_id rk) ++ pkcs1_sign_raw sk (rk_hash rk) (H (rk_hash rk) (msg ++ [0])) /\
+    pss_sign H pss_sign_raw (rsa_with_variant rk VLegacy) sk rnd msg =
+      0 :: be_bytes 4 (rk_id rk) ++ pss_sign_raw sk (rk_hash rk) (rk_salt rk) (H (rk_hash rk) (msg ++ [0])) rnd.
+Proof.
+  intros. split; [apply ecdsa_sign_legacy|].
+  split; [apply ed25519_sign_legacy|]. split; [apply ed25519_sign_legacy|].
+  apply rsa_sign_legacy.
+Qed.
+Print Assumptions C03_legacy_sign_is_crunchy_over_suffixed_message.
+
+(* ---------------- (c) modified message / other key: reduction form ---------------- *)
+
+(* Ed25519.  If the signature Sign produced for (seed, msg) is accepted for
+   another (public key, message), then the Ed25519 oracle has accepted the
+   genuine raw signature for a DIFFERENT (key, message) pair: a forgery
+   against the primitive.  No law is assumed. *)
+Theorem C03_ed25519_modified_or_other_key_is_oracle_forgery :
+  forall ed_raw (ed_sign : bytes -> bytes -> bytes) v id seed pub msg sig pub' msg',
+    ed25519_sign ed_sign v id seed msg = Ok sig ->
+    ed25519_verify ed_raw v id pub' sig msg' = Ok tt ->
+    (pub', msg') <> (pub, msg) ->
+    ed_raw pub' (msg' ++ suffix v) (ed_sign seed (msg ++ suffix v)) = true /\
+    (pub', msg' ++ suffix v) <> (pub, msg ++ suffix v).
+Proof. exact ed25519_forgery_reduction. Qed.
+Print Assumptions C03_ed25519_modified_or_other_key_is_oracle_forgery.
+
+(* the same under the unforgeability law for THIS signature: if the oracle
+   accepts the genuine raw signature for no other (key, message), Verify
+   rejects every other key and every other message *)
+Theorem C03_ed25519_modified_or_other_key_rejected :
+  forall ed_raw (ed_sign : bytes -> bytes -> bytes) v id seed pub msg sig pub' msg',
+    ed25519_sign ed_sign v id seed msg = Ok sig ->
+    (forall p m, ed_raw p m (ed_sign seed (msg ++ suffix v)) = true -> (p, m) = (pub, msg ++ suffix v)) ->
+    (pub', msg') <> (pub, msg) ->
+    ed25519_verify ed_raw v id pub' sig msg' = Err.
+Proof. exact ed25519_modified_rejected_unless_forgery. Qed.
+Print Assumptions C03_ed25519_modified_or_other_key_rejected.
+
+(* RSA-SSA-PKCS1.  k' is any key with the same output prefix (modulus,
+   exponent and hash may differ).  The message representative is the digest:
+   acceptance of a genuine signature under another (modulus, exponent, hash,
+   message) exhibits an oracle acceptance of the genuine raw signature on a
+   different (modulus, exponent, hash, digest), or a collision of the hash on
+   two distinct strings. *)
+Theorem C03_rsa_pkcs1_modified_or_other_key_is_oracle_forgery :
+  forall H pkcs1_raw (pkcs1_sign_raw : bytes -> hasht -> bytes -> bytes) k k' sk msg msg',
+    rsa_same_prefix k k' ->
+    pkcs1_verify H pkcs1_raw k' (pkcs1_sign H pkcs1_sign_raw k sk msg) msg' = Ok tt ->
+    (rk_n k', rk_e k', rk_hash k', msg') <> (rk_n k, rk_e k, rk_hash k, msg) ->
+    let sfx := suffix (rk_variant k) in
+    let body := pkcs1_sign_raw sk (rk_hash k) (H (rk_hash k) (msg ++ sfx)) in
+    pkcs1_raw (rk_n k') (rk_e k') (rk_hash k') (H (rk_hash k') (msg' ++ sfx)) body = true /\
+    ((rk_n k', rk_e k', rk_hash k', H (rk_hash k') (msg' ++ sfx)) <>
+       (rk_n k, rk_e k, rk_hash k, H (rk_hash k) (msg ++ sfx)) \/
+     (H (rk_hash k) (msg' ++ sfx) = H (rk_hash k) (msg ++ sfx) /\ msg' ++ sfx <> msg ++ sfx)).
+Proof. exact pkcs1_forgery_reduction. Qed.
+Print Assumptions C03_rsa_pkcs1_modified_or_other_key_is_oracle_forgery.
+
+Theorem C03_rsa_pkcs1_modified_or_other_key_rejected :
+  forall H pkcs1_raw (pkcs1_sign_raw : bytes -> hasht -> bytes -> bytes) k k' sk msg msg',
+    rsa_same_prefix k k' ->
+    let sfx := suffix (rk_variant k) in
+    let body := pkcs1_sign_raw sk (rk_hash k) (H (rk_hash k) (msg ++ sfx)) in
+    (forall n e h d, pkcs1_raw n e h d body = true ->
+       (n, e, h, d) = (rk_n k, rk_e k, rk_hash k, H (rk_hash k) (msg ++ sfx))) ->
+    (H (rk_hash k) (msg' ++ sfx) = H (rk_hash k) (msg ++ sfx) -> msg' ++ sfx = msg ++ sfx) ->
+    (rk_n k', rk_e k', rk_hash k', msg') <> (rk_n k, rk_e k, rk_hash k, msg) ->
+    pkcs1_verify H pkcs1_raw k' (pkcs1_sign H pkcs1_sign_raw k sk msg) msg' = Err.
+Proof. exact pkcs1_modified_rejected_unless_forgery. Qed.
+Print Assumptions C03_rsa_pkcs1_modified_or_other_key_rejected.
+
+(* RSA-SSA-PSS: the salt length is part of the key side of the pair *)
+Theorem C03_rsa_pss_modified_or_other_key_is_oracle_forgery :
+  forall H pss_raw (pss_sign_raw : bytes -> hasht -> N -> bytes -> bytes -> bytes) k k' sk rnd msg msg',
+    rsa_same_prefix k k' ->
+    pss_verify H pss_raw k' (pss_sign H pss_sign_raw k sk rnd msg) msg' = Ok tt ->
+    (rk_n k', rk_e k', rk_hash k', rk_salt k', msg') <> (rk_n k, rk_e k, rk_hash k, rk_salt k, msg) ->
+    let sfx := suffix (rk_variant k) in
+    let body := pss_sign_raw sk (rk_hash k) (rk_salt k) (H (rk_hash k) (msg ++ sfx)) rnd in
+    pss_raw (rk_n k') (rk_e k') (rk_hash k') (rk_salt k') (H (rk_hash k') (msg' ++ sfx)) body = true /\
+    ((rk_n k', rk_e k', rk_hash k', rk_salt k', H (rk_hash k') (msg' ++ sfx)) <>
+       (rk_n k, rk_e k, rk_hash k, rk_salt k, H (rk_hash k) (msg ++ sfx)) \/
+     (H (rk_hash k) (msg' ++ sfx) = H (rk_hash k) (msg ++ sfx) /\ msg' ++ sfx <> msg ++ sfx)).
+Proof. exact pss_forgery_reduction. Qed.
+Print Assumptions C03_rsa_pss_modified_or_other_key_is_oracle_forgery.
+
+Theorem C03_rsa_pss_modified_or_other_key_rejected :
+  forall H pss_raw (pss_sign_raw : bytes -> hasht -> N -> bytes -> bytes -> bytes) k k' sk rnd msg msg',
+    rsa_same_prefix k k' ->
+    let sfx := suffix (rk_variant k) in
+    let body := pss_sign_raw sk (rk_hash k) (rk_salt k) (H (rk_hash k) (msg ++ sfx)) rnd in
+    (forall n e h s d, pss_raw n e h s d body = true ->
+       (n, e, h, s, d) = (rk_n k, rk_e k, rk_hash k, rk_salt k, H (rk_hash k) (msg ++ sfx))) ->
+    (H (rk_hash k) (msg' ++ sfx) = H (rk_hash k) (msg ++ sfx) -> msg' ++ sfx = msg ++ sfx) ->
+    (rk_n k', rk_e k', rk_hash k', rk_salt k', msg') <> (rk_n k, rk_e k, rk_hash k, rk_salt k, msg) ->
+    pss_verify H pss_raw k' (pss_sign H pss_sign_raw k sk rnd msg) msg' = Err.
+Proof. exact pss_modified_rejected_unless_forgery. Qed.
+Print Assumptions C03_rsa_pss_modified_or_other_key_rejected.
+
+(* ECDSA (both encodings): the verifying key keeps curve, encoding and prefix
+   and has any public point and hash.  Acceptance for another (point, hash,
+   message) exhibits a raw verification of the genuine (r, s) on a different
+   (point, digest), or two distinct (hash, string) pairs with one digest. *)
+Theorem C03_ecdsa_modified_or_other_key_is_oracle_forgery :
+  forall H raw (sign_rs : curve -> bytes -> bytes -> bytes -> N * N) k sk rnd msg sig pub' h' msg',
+    (forall c sk h rnd, fst (sign_rs c sk h rnd) < 256 ^ N.of_nat (field_size c) /\
+                        snd (sign_rs c sk h rnd) < 256 ^ N.of_nat (field_size c)) ->
+    ecdsa_sign H sign_rs k sk rnd msg = Some sig ->
+    ecdsa_verify H raw (ecdsa_with_pub_hash k pub' h') sig msg' = Ok tt ->
+    (pub', h', msg') <> (ek_pub k, ek_hash k, msg) ->
+    let sfx := suffix (ek_variant k) in
+    let rs := sign_rs (ek_curve k) sk (H (ek_hash k) (msg ++ sfx)) rnd in
+    raw (ek_curve k) pub' (H h' (msg' ++ sfx)) (fst rs) (snd rs) = true /\
+    ((pub', H h' (msg' ++ sfx)) <> (ek_pub k, H (ek_hash k) (msg ++ sfx)) \/
+     (H h' (msg' ++ sfx) = H (ek_hash k) (msg ++ sfx) /\ (h', msg' ++ sfx) <> (ek_hash k, msg ++ sfx))).
+Proof. exact ecdsa_forgery_reduction. Qed.
+Print Assumptions C03_ecdsa_modified_or_other_key_is_oracle_forgery.
+
+Theorem C03_ecdsa_modified_or_other_key_rejected :
+  forall H raw (sign_rs : curve -> bytes -> bytes -> bytes -> N * N) k sk rnd msg sig pub' h' msg',
+    (forall c sk h rnd, fst (sign_rs c sk h rnd) < 256 ^ N.of_nat (field_size c) /\
+                        snd (sign_rs c sk h rnd) < 256 ^ N.of_nat (field_size c)) ->
+    ecdsa_sign H sign_rs k sk rnd msg = Some sig ->
+    let sfx := suffix (ek_variant k) in
+    let rs := sign_rs (ek_curve k) sk (H (ek_hash k) (msg ++ sfx)) rnd in
+    (forall p d, raw (ek_curve k) p d (fst rs) (snd rs) = true -> (p, d) = (ek_pub k, H (ek_hash k) (msg ++ sfx))) ->
+    (H h' (msg' ++ sfx) = H (ek_hash k) (msg ++ sfx) -> (h', msg' ++ sfx) = (ek_hash k, msg ++ sfx)) ->
+    (pub', h', msg') <> (ek_pub k, ek_hash k, msg) ->
+    ecdsa_verify H raw (ecdsa_with_pub_hash k pub' h') sig msg' = Err.
+Proof. exact ecdsa_modified_rejected_unless_forgery. Qed.
+Print Assumptions C03_ecdsa_modified_or_other_key_rejected.
+
+(* ---------------- the premises of the second round are inhabited ---------------- *)
+
+(* a 2048-bit modulus 80 00..00 (256 bytes); a "signature" 00 07..07 whose
+   first byte is zero; a core verification that only looks at the INTEGER the
+   signature denotes (what a verifier that left-pads short signatures does) *)
+Definition n2048 : bytes := 128 :: repeat 0 255.
+Definition zsig : bytes := 0 :: repeat 7 255.
+Definition toy_rsa (v : variant) (n : bytes) (h : hasht) : rsa_key :=
+  {| rk_hash := h; rk_variant := v; rk_id := 16909060; rk_n := n; rk_e := 65537; rk_salt := 32 |}.
+Definition toy_pkcs1_core (_ : bytes) (_ : N) (_ : hasht) (_ sig : bytes) : bool := be_val sig =? be_val zsig.
+Definition toy_pss_core (_ : bytes) (_ : N) (_ : hasht) (_ : N) (_ sig : bytes) : bool := be_val sig =? be_val zsig.
+Definition toy_pkcs1_sign (_ : bytes) (_ : hasht) (_ : bytes) : bytes := zsig.
+Definition toy_pss_sign (_ : bytes) (_ : hasht) (_ : N) (_ _ : bytes) : bytes := zsig.
+Definition toy_rsa_pub_of (_ : bytes) : bytes * N := (n2048, 65537).
+
+Example C03_example_rsa_length :
+  rsa_sig_len n2048 = 256%nat /\ rsa_sig_len (0 :: 0 :: n2048) = 256%nat /\ rsa_key_ok n2048 65537 = true /\
+  length zsig = 256%nat /\
+  (* the genuine 256-byte signature is accepted ... *)
+  pkcs1_verify toyH (std_pkcs1 toy_pkcs1_core) (toy_rsa VTink n2048 SHA256) ([1;1;2;3;4] ++ zsig) [9] = Ok tt /\
+  pss_verify toyH (std_pss toy_pss_core) (toy_rsa VRaw n2048 SHA256) zsig [9] = Ok tt /\
+  (* ... its zero-stripped 255-byte form denotes the same integer and the core
+     alone would take it, but Verify rejects it, and 257 bytes as well *)
+  toy_pkcs1_core n2048 65537 SHA256 [9] (tl zsig) = true /\
+  pkcs1_verify toyH (std_pkcs1 toy_pkcs1_core) (toy_rsa VTink n2048 SHA256) ([1;1;2;3;4] ++ tl zsig) [9] = Err /\
+  pkcs1_verify toyH (std_pkcs1 toy_pkcs1_core) (toy_rsa VTink n2048 SHA256) ([1;1;2;3;4] ++ 0 :: zsig) [9] = Err /\
+  pss_verify toyH (std_pss toy_pss_core) (toy_rsa VRaw n2048 SHA256) (tl zsig) [9] = Err /\
+  pss_verify toyH (std_pss toy_pss_core) (toy_rsa VRaw n2048 SHA256) (zsig ++ [0]) [9] = Err /\
+  (* a TINK signature under the RAW key of the same modulus, and conversely *)
+  pkcs1_verify toyH (std_pkcs1 toy_pkcs1_core) (toy_rsa VRaw n2048 SHA256) ([1;1;2;3;4] ++ zsig) [9] = Err /\
+  pkcs1_verify toyH (std_pkcs1 toy_pkcs1_core) (toy_rsa VTink n2048 SHA256) zsig [9] = Err.
+Proof. vm_compute. repeat split; reflexivity. Qed.
+
+(* the laws of C03_rsa_sign_has_modulus_length hold for the toy oracles *)
+Example C03_example_rsa_sign_law :
+  (forall sk h d, std_pkcs1 toy_pkcs1_core (fst (toy_rsa_pub_of sk)) (snd (toy_rsa_pub_of sk)) h d (toy_pkcs1_sign sk h d) = true) /\
+  (forall sk h salt d rnd,
+      std_pss toy_pss_core (fst (toy_rsa_pub_of sk)) (snd (toy_rsa_pub_of sk)) h salt d (toy_pss_sign sk h salt d rnd) = true) /\
+  (rk_n (toy_rsa VLegacy n2048 SHA256), rk_e (toy_rsa VLegacy n2048 SHA256)) = toy_rsa_pub_of [5] /\
+  length (pkcs1_sign toyH toy_pkcs1_sign (toy_rsa VLegacy n2048 SHA256) [5] [9]) = 261%nat.
+Proof. repeat split; intros; vm_compute; reflexivity. Qed.
+
+(* Ed25519: an accepted signature (premise of the explicit rejections); a lax
+   oracle under which a modified message IS accepted (premises of the
+   reduction); a strict oracle satisfying the no-forgery hypothesis *)
+Definition toy_ed_sign (_ _ : bytes) : bytes := repeat 1 64.
+Definition toy_ed_lax (_ _ _ : bytes) : bool := true.
+Definition toy_ed_strict (p m s : bytes) : bool := beq p [7] && beq m [9] && beq s (repeat 1 64).
+Definition toy_ed_sig : bytes := [1;1;2;3;4] ++ repeat 1 64.
+
+Example C03_example_ed25519 :
+  ed25519_sign toy_ed_sign VTink 16909060 [5] [9] = Ok toy_ed_sig /\
+  ed25519_verify toy_ed_strict VTink 16909060 [7] toy_ed_sig [9] = Ok tt /\
+  ed25519_verify toy_ed_strict VTink 16909060 [7] (toy_ed_sig ++ [0]) [9] = Err /\
+  ed25519_verify toy_ed_strict VTink 16909060 [7] (firstn 68 toy_ed_sig) [9] = Err /\
+  ed25519_verify toy_ed_strict VTink 16909061 [7] toy_ed_sig [9] = Err /\
+  ed25519_verify toy_ed_strict VCrunchy 16909060 [7] toy_ed_sig [9] = Err /\
+  ed25519_verify toy_ed_strict VRaw 16909060 [7] toy_ed_sig [9] = Err /\
+  ed25519_verify toy_ed_strict VTink 16909060 [7] (skipn 5 toy_ed_sig) [9] = Err /\
+  (* lax oracle: the modified message and the other key are accepted *)
+  ed25519_verify toy_ed_lax VTink 16909060 [8] toy_ed_sig [10] = Ok tt /\
+  ([8], [10]) <> ([7], [9] : bytes) /\
+  (* strict oracle: the no-forgery hypothesis holds, and the genuine pair verifies *)
+  (forall p m, toy_ed_strict p m (toy_ed_sign [5] ([9] ++ suffix VTink)) = true -> (p, m) = ([7], [9] ++ suffix VTink)).
+Proof.
+  repeat split; try (vm_compute; reflexivity); try discriminate.
+  intros p m Hc. unfold toy_ed_strict in Hc. apply andb_true_iff in Hc. destruct Hc as [Hc _].
+  apply andb_true_iff in Hc. destruct Hc as [Hp Hm]. apply beq_eq in Hp, Hm. subst. reflexivity.
+Qed.
+
+(* RSA reduction: with the lax core a modified message is accepted (premises
+   inhabited, first disjunct: another digest); with a constant hash the second
+   disjunct is a collision of two DISTINCT strings; a strict oracle satisfies
+   the no-forgery hypothesis *)
+Definition toyHconst (_ : hasht) (_ : bytes) : bytes := [0].
+Definition hash_is256 (h : hasht) : bool := match h with SHA256 => true | _ => false end.
+Definition toy_pkcs1_strict (n : bytes) (e : N) (h : hasht) (d sig : bytes) : bool :=
+  beq n n2048 && (e =? 65537) && hash_is256 h && beq d [9] && beq sig zsig.
+Definition toy_pss_strict (n : bytes) (e : N) (h : hasht) (s : N) (d sig : bytes) : bool :=
+  beq n n2048 && (e =? 65537) && hash_is256 h && (s =? 32) && beq d [9] && beq sig zsig.
+
+Example C03_example_rsa_reduction :
+  let k := toy_rsa VTink n2048 SHA256 in
+  rsa_same_prefix k (toy_rsa VTink (129 :: repeat 0 255) SHA384) /\
+  (* modified message, identity hash: accepted by the lax core, digests differ *)
+  pkcs1_verify toyH toy_pkcs1_core k (pkcs1_sign toyH toy_pkcs1_sign k [5] [9]) [10] = Ok tt /\
+  toyH SHA256 ([10] ++ suffix VTink) <> toyH SHA256 ([9] ++ suffix VTink) /\
+  (* other key (modulus and hash) *)
+  pkcs1_verify toyH toy_pkcs1_core (toy_rsa VTink (129 :: repeat 0 255) SHA384) (pkcs1_sign toyH toy_pkcs1_sign k [5] [9]) [9] = Ok tt /\
+  pss_verify toyH toy_pss_core k (pss_sign toyH toy_pss_sign k [5] [6] [9]) [10] = Ok tt /\
+  (* constant hash: the collision disjunct, on distinct strings *)
+  pkcs1_verify toyHconst toy_pkcs1_core k (pkcs1_sign toyHconst toy_pkcs1_sign k [5] [9]) [10] = Ok tt /\
+  toyHconst SHA256 ([10] ++ suffix VTink) = toyHconst SHA256 ([9] ++ suffix VTink) /\
+  [10] ++ suffix VTink <> [9] ++ suffix VTink /\
+  (* strict oracles: genuine accepted, no-forgery hypotheses hold *)
+  pkcs1_verify toyH toy_pkcs1_strict k (pkcs1_sign toyH toy_pkcs1_sign k [5] [9]) [9] = Ok tt /\
+  (forall n e h d, toy_pkcs1_strict n e h d (toy_pkcs1_sign [5] SHA256 (toyH SHA256 ([9] ++ suffix VTink))) = true ->
+     (n, e, h, d) = (rk_n k, rk_e k, rk_hash k, toyH (rk_hash k) ([9] ++ suffix VTink))) /\
+  (forall n e h s d, toy_pss_strict n e h s d (toy_pss_sign [5] SHA256 32 (toyH SHA256 ([9] ++ suffix VTink)) [6]) = true ->
+     (n, e, h, s, d) = (rk_n k, rk_e k, rk_hash k, rk_salt k, toyH (rk_hash k) ([9] ++ suffix VTink))).
+Proof.
+  cbv zeta. repeat split; try (vm_compute; reflexivity); try discriminate.
+  - intros n e h d Hc. unfold toy_pkcs1_strict in Hc.
+    repeat (apply andb_true_iff in Hc; let X := fresh "X" in destruct Hc as [Hc X]).
+    apply beq_eq in Hc, X0. apply N.eqb_eq in X2. destruct h; try discriminate X1. subst. reflexivity.
+  - intros n e h s d Hc. unfold toy_pss_strict in Hc.
+    repeat (apply andb_true_iff in Hc; let X := fresh "X" in destruct Hc as [Hc X]).
+    apply beq_eq in Hc, X0. apply N.eqb_eq in X1, X3. destruct h; try discriminate X2. subst. reflexivity.
+Qed.
+
+(* ECDSA reduction: toy_raw ignores point and digest, so a modified message is
+   accepted (premises inhabited); a strict raw verification satisfies the
+   no-forgery hypothesis *)
+Definition toy_sign_rs (_ : curve) (_ _ _ : bytes) : N * N := (7, 300).
+Definition toy_raw_strict (_ : curve) (p d : bytes) (r s : N) : bool :=
+  beq p [4] && beq d [9] && (r =? 7) && (s =? 300).
+
+Example C03_example_ecdsa_reduction :
+  (forall c sk h rnd, fst (toy_sign_rs c sk h rnd) < 256 ^ N.of_nat (field_size c) /\
+                      snd (toy_sign_rs c sk h rnd) < 256 ^ N.of_nat (field_size c)) /\
+  ecdsa_sign toyH toy_sign_rs (toy_key DER VTink) [5] [6] [9] = Some [1;1;2;3;4; 48;7; 2;1;7; 2;2;1;44] /\
+  ecdsa_verify toyH toy_raw (ecdsa_with_pub_hash (toy_key DER VTink) [4] SHA256)
+               [1;1;2;3;4; 48;7; 2;1;7; 2;2;1;44] [10] = Ok tt /\
+  ecdsa_verify toyH toy_raw_strict (toy_key DER VTink) [1;1;2;3;4; 48;7; 2;1;7; 2;2;1;44] [9] = Ok tt /\
+  (forall p d, toy_raw_strict P256 p d 7 300 = true -> (p, d) = ([4], toyH SHA256 ([9] ++ suffix VTink))).
+Proof.
+  split; [intros c sk h rnd; destruct c; vm_compute; split; reflexivity|].
+  repeat split; try (vm_compute; reflexivity).
+  intros p d Hc. unfold toy_raw_strict in Hc.
+  repeat (apply andb_true_iff in Hc; let X := fresh "X" in destruct Hc as [Hc X]).
+  apply beq_eq in Hc, X1. subst. reflexivity.
+Qed.
